@@ -107,6 +107,12 @@ class Check(PropertyCheck):
                   "verifies iff this Application issued it') and exercised for real in the sweep. A session cookie issued before a "
                   "password rotation stays valid in the code and in the model (it is signed with the Application's cookie_secret); "
                   "the statement's 'valid session cookie' does not demand revocation, so the oracle neither demands nor forbids it. "
+                  "The state / disclosure theorems (no_credential_no_state_change_no_body, hist_uncredentialed_is_inert) hold BY THE "
+                  "SHAPE of stepApp - the arbitrary handler is called only when handlerRan, every refusal is the constant "
+                  "Resp.refusal - so they reduce to 'the handler is not run'; that tornado's own refusal paths (login form, XSRF "
+                  "cookie, error page, prepare) touch no application state and print no flow data is carried by the sweep's "
+                  "state-snapshot and marker clauses only. Status 403 is proved exactly only under the side conditions of "
+                  "no_credential_is_403; elsewhere the refusal is 405 / 403-xsrf / cross-site (500 in the code) / 400. "
                   "Static asset rules are outside the authenticated table by design (see module docstring). The cross-site refusal "
                   "raises tornado.httpclient.HTTPError, which tornado turns into status 500, not 403 - a refusal, outcome "
                   "`cross-site`. 'GET/HEAD/OPTIONS handlers do not change state' is checked by the sweep only. Passwords and tokens are "
